@@ -45,10 +45,20 @@ impl WriteSource for pr::Expr {
         if !needs_parenthesis(self, &opt) {
             r += &self.kind.write(opt.clone())?;
         } else {
-            let value = self.kind.write_between("(", ")", opt.clone());
+            // First try to continue on the current line. Within that attempt,
+            // nested parenthesised expressions must not fall back to breaking
+            // the line themselves: when the attempt fails we break the line
+            // here (the outermost position) and lay out the inner expressions
+            // afresh. Letting every level try both layouts for every layout of
+            // its parent made formatting exponential in the nesting depth.
+            let mut opt_inline = opt.clone();
+            opt_inline.no_line_break = true;
+            let value = self.kind.write_between("(", ")", opt_inline);
 
             if let Some(value) = value {
                 r += &value;
+            } else if opt.no_line_break {
+                return None;
             } else {
                 r += &break_line_within_parenthesis(&self.kind, opt)?;
             }
@@ -353,7 +363,7 @@ fn can_bind_left(expr: &pr::ExprKind) -> bool {
 impl WriteSource for pr::Ident {
     fn write(&self, mut opt: WriteOpt) -> Option<String> {
         let width = self.path.iter().map(|p| p.len() + 1).sum::<usize>() + self.name.len();
-        opt.consume_width(width as u16)?;
+        opt.consume_width(width)?;
 
         let mut r = String::new();
         for part in &self.path {
